@@ -1,0 +1,15 @@
+//go:build verif
+// +build verif
+
+package quorum
+
+import (
+	"github.com/ethereum/go-ethereum/core/types"
+	cmanager "github.com/polynetwork/poly/native/service/governance/side_chain_manager"
+)
+
+// VerifVerifyFromQuorumTx exposes the unexported proof check of the quorum router (the header is the one the
+// validator-signature check has accepted); verification harness only (build tag verif).
+func VerifVerifyFromQuorumTx(proof, extra []byte, hdr *types.Header, sideChain *cmanager.SideChain) error {
+	return verifyFromQuorumTx(proof, extra, hdr, sideChain)
+}
